@@ -50,7 +50,8 @@ CONSTANTS
     Ks,         \* set of k
     MaxIters,   \* set of max_iter values
     LCM,        \* common multiple of 1..MaxN
-    Replay      \* TRUE: print one REPLAY line per terminal state
+    Replay,     \* TRUE: print one REPLAY line per terminal state
+    ShowEmpty   \* TRUE: print one INFO line per state in which an assignment step left a cluster empty
 
 ASSUME \A m \in 1..MaxN : LCM % m = 0
 
@@ -206,6 +207,21 @@ SeedingSound == pc \in {"assign", "choose", "update", "done"} => \A c \in 1..k :
 Monotone == (pc = "update" /\ distortion # -1) => newdist <= distortion
 
 Bounded == it <= maxIter /\ (Done => it >= 1)
+
+(***************************************************************************)
+(* A cluster can lose all its members in an assignment step (the code then *)
+(* keeps its previous centroid: NewNum / NewDen).  Which data sets and     *)
+(* seedings do that is not obvious, and random testing meets them rarely.  *)
+(* With ShowEmpty the model lists them: one INFO line (data, k, the seeds' *)
+(* initial labelling is not needed) per state in which some size is 0.     *)
+(* The check hands these data sets to the harness, which refits them many  *)
+(* times (the seeding of the real code cannot be controlled) and reports   *)
+(* how many real fits ended with an empty cluster.                         *)
+(***************************************************************************)
+SomeEmpty == pc \in {"update", "done"} /\ \E c \in 1..k : size[c] = 0
+EmitEmpty ==
+    (ShowEmpty /\ SomeEmpty) =>
+        PrintT(<<"INFO", ToJson([X |-> data, k |-> k, it |-> it, y |-> y])>>)
 
 Emit ==
     (Replay /\ Done) =>
